@@ -4,6 +4,7 @@
 From Coq Require Import List NArith ZArith.
 From TarsV Require Import Base.Hex Conf.Conf Conf.ConfSpec Conf.ConfProofs.
 From TarsV Require Endpoint.Parse.
+From TarsV Require Import Conf.GoStr Gen.ConfTranslated Conf.ConfXlate.
 Import ListNotations.
 Open Scope N_scope.
 
@@ -108,6 +109,13 @@ Theorem C17_int_parsed : forall z,
   (~ (-9223372036854775808 <= z <= 9223372036854775807)%Z -> atoi (Endpoint.Parse.dec z) = None).
 Proof. exact ConfProofs.int_parsed. Qed.
 
+(* ... and "malformed" at full strength: the conversion succeeds exactly on [+-]?[0-9]+ whose value lies inside the
+   width (any other string, or a value outside, makes the getter return the supplied default) *)
+Theorem C17_int_accepts_exactly : forall lo hi s z,
+  parse_int lo hi s = Some z <->
+  exists sign ds, decimal_shape s sign ds /\ z = (if bytes_eqb sign [45%N] then - dval 0 ds else dval 0 ds)%Z /\ (lo <= z <= hi)%Z.
+Proof. exact ConfProofs.parse_int_spec. Qed.
+
 (* ... and the default / empty listings when nothing is written there *)
 Theorem C17_absent_defaults : forall s evs, represents s evs -> forall p v, analysis_path p = Ok v ->
   absent evs (key_of_vec v) ->
@@ -155,6 +163,67 @@ Proof. exact ConfProofs.parse_old_refuted. Qed.
 Theorem C17_repair_conservative : forall bs t, parse bs = Ok t -> parse_old bs = Ok t.
 Proof. exact ConfProofs.repair_conservative. Qed.
 
+(* ---- the line-level code itself ----------------------------------------------------------------- *)
+(* Gen/ConfTranslated.v is the Go source of the CURRENT tree, translated on every run (harness/c17xlate.go, target
+   language Conf/GoStr.v): the body of the line loop of InitFromBytes (effects on the current element), analysisPath,
+   and the four typed getters. For all inputs they compute what the model computes: *)
+Theorem C17_line_body_translated : forall text, tr_conf_line text = Some (ConfXlate.line_effects text).
+Proof. exact ConfXlate.tr_conf_line_equiv. Qed.
+(* ... so the model's scanner loop over a text run is the loop with the translated body *)
+Theorem C17_line_loop_translated : forall segs s cur, ConfXlate.tr_segments s cur segs = do_segments s cur segs.
+Proof. exact ConfXlate.tr_segments_equiv. Qed.
+(* the statements around the loop are the expected ones (scanner over the token, ScanLines, the scanner's error returned),
+   and so is the decode loop around the three token cases (Decoder.Token, a token error other than io.EOF returned) *)
+Theorem C17_line_loop_frame : tr_conf_line_frame = true /\ tr_conf_decode_loop_frame = true /\ tr_conf_tag_cases_frame = true.
+Proof. exact ConfXlate.tr_conf_line_frame_pinned. Qed.
+Theorem C17_analysis_path_translated : forall p,
+  tr_analysisPath p = match analysis_path p with Ok v => Some v | _ => None end.
+Proof. exact ConfXlate.tr_analysisPath_equiv. Qed.
+Theorem C17_getters_translated : forall s p,
+  (forall d, get_string_def s p d = ConfXlate.on_elem s p (fun v e => tr_GetStringWithDef v e d)) /\
+  (forall d, get_int_def s p d = ConfXlate.on_elem s p (fun v e => tr_GetIntWithDef v e d)) /\
+  (forall d, get_int32_def s p d = ConfXlate.on_elem s p (fun v e => tr_GetInt32WithDef v e d)) /\
+  (forall d, get_bool_def s p d = ConfXlate.on_elem s p (fun v e => tr_GetBoolWithDef v e d)).
+Proof. exact ConfXlate.getters_translated. Qed.
+
+(* the methods of elem, and the listing getters on an element of the model's store seen as the Go code sees it
+   (children in store order — a Go map iterates in an unspecified order, the correspondence compares as sets) *)
+Theorem C17_elem_methods_translated : forall e name child line value kd,
+  tr_addLine e line = Some (ge_set_line e (ge_line e ++ [line])) /\
+  tr_setValue e value = Some (ge_set_value e value) /\
+  tr_addChild e name child = Some (ge_set_children e (gs_map_set (ge_children e) name child)) /\
+  tr_findChild e name = Some (gs_map_get2 (ge_children e) name) /\
+  tr_newElem kd name = Some {| ge_kind := kd; ge_name := name; ge_value := []; ge_children := []; ge_line := [] |}.
+Proof. exact ConfXlate.tr_elem_methods. Qed.
+Theorem C17_listing_getters_translated : forall s p v, analysis_path p = Ok v ->
+  let nd := ConfXlate.get_elem_view s v in
+  tr_getDomain p (fst nd) (snd nd) = Some (match get_domain s p with Ok l => l | _ => [] end, snd nd) /\
+  tr_getDomainKey p (fst nd) (snd nd) = Some (match get_domain_key s p with Ok l => l | _ => [] end, snd nd) /\
+  tr_getDomainLine p (fst nd) (snd nd) = Some (match get_domain_line s p with Ok l => l | _ => [] end, snd nd) /\
+  tr_getMap p (fst nd) (snd nd) =
+    Some (fold_left (fun m kv => gs_map_set m (fst kv) (snd kv)) (match get_map s p with Ok l => l | _ => [] end) [], snd nd) /\
+  (forall d, tr_getValue p (fst nd) (snd nd) = Some (match lookup s (key_of_vec v) with Some i => ivalue i | None => [] end, snd nd)
+             /\ get_string_def s p d = Ok (match lookup s (key_of_vec v) with Some i => ivalue i | None => d end)).
+Proof. exact ConfXlate.tr_listing_getters_equiv. Qed.
+
+(* a Go map iterates in an unspecified order: in whatever order the children of the element are visited, GetDomain and
+   GetDomainKey return the same names up to order (the correspondence compares them as sets) *)
+Theorem C17_listing_order_independent : forall p v nd nd', analysis_path p = Ok v ->
+  Permutation.Permutation (map snd (ge_children nd)) (map snd (ge_children nd')) ->
+  exists l l' k k', tr_getDomain p nd false = Some (l, false) /\ tr_getDomain p nd' false = Some (l', false) /\ Permutation.Permutation l l' /\
+                    tr_getDomainKey p nd false = Some (k, false) /\ tr_getDomainKey p nd' false = Some (k', false) /\ Permutation.Permutation k k'.
+Proof. exact ConfXlate.listing_order_independent. Qed.
+
+(* elem.getElem walks the tree from the root child by child (translated; elements are abstract handles, findChild a
+   parameter); the model looks the whole path up in its flat store. On every store the parser produces the two agree,
+   because such a store holds all ancestors of each of its elements: *)
+Theorem C17_store_closed : forall bs t, parse bs = Ok t -> ConfXlate.closed t /\ ConfXlate.present t [root_name].
+Proof. exact ConfXlate.parse_store_closed. Qed.
+Theorem C17_getElem_translated : forall bs t v, parse bs = Ok t ->
+  tr_getElem (ConfXlate.find_in t) (Some [root_name]) v =
+  Some (match lookup t (key_of_vec v) with Some _ => (Some (key_of_vec v), false) | None => (None, true) end).
+Proof. exact ConfXlate.getElem_translated. Qed.
+
 (* ---- no panic -------------------------------------------------------------------------------- *)
 Theorem C17_no_panic_parse : forall bs n, parse bs <> Panic n.
 Proof. exact ConfProofs.parse_no_panic. Qed.
@@ -181,6 +250,7 @@ Print Assumptions C17_path_key.
 Print Assumptions C17_lines_exact.
 Print Assumptions C17_value_exact.
 Print Assumptions C17_int_parsed.
+Print Assumptions C17_int_accepts_exactly.
 Print Assumptions C17_absent_defaults.
 Print Assumptions C17_listing_getters.
 Print Assumptions C17_subdomains_exact.
@@ -191,5 +261,15 @@ Print Assumptions C17_whole_represented.
 Print Assumptions C17_outcomes.
 Print Assumptions C17_old_loop_refuted.
 Print Assumptions C17_repair_conservative.
+Print Assumptions C17_line_body_translated.
+Print Assumptions C17_line_loop_translated.
+Print Assumptions C17_line_loop_frame.
+Print Assumptions C17_analysis_path_translated.
+Print Assumptions C17_getters_translated.
+Print Assumptions C17_elem_methods_translated.
+Print Assumptions C17_listing_getters_translated.
+Print Assumptions C17_listing_order_independent.
+Print Assumptions C17_store_closed.
+Print Assumptions C17_getElem_translated.
 Print Assumptions C17_no_panic_parse.
 Print Assumptions C17_no_panic_getters.
